@@ -48,6 +48,29 @@ func cohortOf(r *gen.RNG, neg bool, c *big.Int, e int) ref.Bits {
 	return ref.Encode(neg, cc, ee)
 }
 
+// shapedCoef returns a coefficient of a uniformly chosen length 1..35 whose
+// last digit is non-zero and whose leading digits are biased towards 1.0..1.9
+// (where one-word / two-word and digit-count boundaries of multi-word
+// arithmetic lie: 2^64 = 1.84e19, 2^63 = 9.2e18, Cmax = 1.298e34).
+func shapedCoef(r *gen.RNG) *big.Int {
+	nd := r.Range(1, 35)
+	var c *big.Int
+	if nd == 35 {
+		c = wide35(r)
+	} else {
+		c = r.Digits(nd)
+		if nd >= 2 && r.Bool() {
+			// leading digit 1
+			c.Mod(c, ref.Pow10(nd-1))
+			c.Add(c, ref.Pow10(nd-1))
+		}
+	}
+	if new(big.Int).Mod(c, ref.Ten).Sign() == 0 {
+		c.Add(c, ref.One)
+	}
+	return c
+}
+
 // wide35 returns a 35-digit coefficient (10^34 .. Cmax), biased to the ends of that interval.
 func wide35(r *gen.RNG) *big.Int {
 	lo := ref.Pow10(34)
@@ -70,6 +93,11 @@ func opClasses() []opClass {
 		return func(r *gen.RNG) ref.Bits {
 			switch kind {
 			case "frac": // 0 < |v| < 1, never an integer
+				if r.Chance(1, 4) {
+					// any coefficient length (word boundary at 19/20 digits included), value just below one or smaller
+					c := shapedCoef(r)
+					return ref.Encode(neg, c, gen.ClampExp(-ref.NumDigits(c)-r.Pick(0, 0, 0, 1, 2, 5)))
+				}
 				if r.Chance(1, 8) {
 					// coefficient next to an internal threshold (2^113, word boundaries, ...), exact or cohort-scaled
 					c := r.ThresholdCoef()
@@ -104,6 +132,21 @@ func opClasses() []opClass {
 			case "one":
 				return cohortOf(r, neg, big.NewInt(1), 0)
 			case "nonint": // > 1, not an integer
+				if r.Chance(1, 4) {
+					// any coefficient length with the point anywhere inside it: 1 <= |v|, fractional digits present
+					c := shapedCoef(r)
+					nd := ref.NumDigits(c)
+					if nd >= 2 {
+						e := -r.Range(1, nd-1)
+						if r.Bool() {
+							e = -(nd - 1) // exactly one integer digit: 1.xxx .. 9.xxx
+						}
+						if c.Cmp(ref.Pow10(nd-1)) == 0 {
+							c.Add(c, ref.One) // not the integer 10^(nd-1)*10^e
+						}
+						return ref.Encode(neg, c, e)
+					}
+				}
 				if r.Chance(1, 4) {
 					// full-width members just above one: 35-digit coefficients at exponent -34 (1 < |v| < 1.2981),
 					// 34-digit coefficients at exponent -33, and 1 + k units in the last place
@@ -646,7 +689,7 @@ func runC15(c *Ctx) {
 				}
 				if (rep*len(classes)+a)%c.Shards == sh.ID {
 					for oi := range unOps {
-						for k := 0; k < 8; k++ {
+						for k := 0; k < 32; k++ {
 							j.judgeUnary(oi, classes[a].gen(r), &classes[a])
 						}
 					}
